@@ -276,6 +276,7 @@ func runC20(p *Program, r *Report) {
 		// reports checks inside library code it inlined at a call site, e.g. strings.CutSuffix: those are the
 		// library's, not this function's)
 		own := map[string]bool{}
+		ownUnproved := map[string]bool{} // lines with an index operation that the search-result idiom below does not cover
 		for _, sp := range p.SSAPkg {
 			for _, f := range pkgFuncs(p.SSA, sp) {
 				for _, b := range f.Blocks {
@@ -289,7 +290,11 @@ func runC20(p *Program, r *Report) {
 							}
 							if in.Pos().IsValid() {
 								ps := p.Fset.Position(in.Pos())
-								own[strings.TrimPrefix(ps.Filename, p.Dir+"/")+":"+itoa(ps.Line)] = true
+								k := strings.TrimPrefix(ps.Filename, p.Dir+"/") + ":" + itoa(ps.Line)
+								own[k] = true
+								if !indexProvedBySearchIdiom(in) {
+									ownUnproved[k] = true
+								}
 							}
 						}
 					}
@@ -344,7 +349,8 @@ func runC20(p *Program, r *Report) {
 			ss := sites[fn]
 			inb, slb := 0, 0
 			var where, whereOwn []string
-			ownN, copies := 0, 0
+			ownN, copies, idiom := 0, 0, 0
+			_ = idiom
 			for _, s := range ss {
 				if k := fmt.Sprintf("%s:%d", s.file, s.line); !own[k] {
 					for _, callee := range callsModule[k] {
@@ -360,7 +366,9 @@ func runC20(p *Program, r *Report) {
 					slb++
 				}
 				where = append(where, fmt.Sprintf("%s:%d(%s)", s.file, s.line, s.kind))
-				if own[fmt.Sprintf("%s:%d", s.file, s.line)] {
+				if k := fmt.Sprintf("%s:%d", s.file, s.line); own[k] && !ownUnproved[k] {
+					idiom++ // x[i] with i the non-negative result of a search in x itself: in bounds by the library's contract
+				} else if own[k] {
 					ownN++
 					whereOwn = append(whereOwn, fmt.Sprintf("%s:%d(%s)", s.file, s.line, s.kind))
 				}
@@ -1005,4 +1013,170 @@ func controlsC20() []Control {
 		{Name: "PutBucketActions: new lifecycle branch asserting parsedAcl", Rule: "R-C20-5", File: "s3api/controllers/base.go",
 			Old: "\tif ctx.Request().URI().QueryArgs().Has(\"ownershipControls\") {\n\t\tparsedAcl := ctx.Locals(\"parsedAcl\").(auth.ACL)\n\t\tvar ownershipControls", New: "\tif ctx.Request().URI().QueryArgs().Has(\"lifecycle\") {\n\t\tparsedAcl := ctx.Locals(\"parsedAcl\").(auth.ACL)\n\t\treturn SendResponse(ctx, s3err.GetAPIError(s3err.ErrNotImplemented), &MetaOpts{Logger: c.logger, BucketOwner: parsedAcl.Owner})\n\t}\n\n\tif ctx.Request().URI().QueryArgs().Has(\"ownershipControls\") {\n\t\tparsedAcl := ctx.Locals(\"parsedAcl\").(auth.ACL)\n\t\tvar ownershipControls", Expect: "lifecycle"},
 	}
+}
+
+// indexProvedBySearchIdiom: x[i] where i is the result of slices.Index / slices.IndexFunc / strings.Index... on the
+// same value x and the access is only reachable through an edge on which i is known not to be negative. The
+// library guarantees -1 <= i < len(x); the compiler does not know that contract.
+func indexProvedBySearchIdiom(in ssa.Instruction) bool {
+	var x, idx ssa.Value
+	switch v := in.(type) {
+	case *ssa.IndexAddr:
+		x, idx = v.X, v.Index
+	case *ssa.Index:
+		x, idx = v.X, v.Index
+	case *ssa.Lookup:
+		x, idx = v.X, v.Index
+	default:
+		return false
+	}
+	if rangeIndexInBounds(in, x, idx) {
+		return true
+	}
+	c, ok := idx.(*ssa.Call)
+	if !ok {
+		return false
+	}
+	g := c.Call.StaticCallee()
+	if g == nil {
+		return false
+	}
+	name := g.Name()
+	if o := g.Origin(); o != nil {
+		name = o.Name()
+	}
+	pkg := ""
+	if g.Pkg != nil {
+		pkg = g.Pkg.Pkg.Path()
+	} else if o := g.Origin(); o != nil && o.Pkg != nil {
+		pkg = o.Pkg.Pkg.Path()
+	}
+	switch pkg + "." + name {
+	case "slices.Index", "slices.IndexFunc", "strings.Index", "strings.IndexByte", "strings.LastIndex", "strings.IndexFunc", "bytes.Index", "bytes.IndexByte", "bytes.LastIndex":
+	default:
+		return false
+	}
+	if len(c.Call.Args) == 0 || !sameSliceValue(c.Call.Args[0], x) {
+		return false
+	}
+	f := in.Parent()
+	var nonNeg []edge
+	for _, ce := range condEdgesOf(f) {
+		bo := ce.binop
+		if bo == nil {
+			continue
+		}
+		var k *ssa.Const
+		left := false
+		if bo.X == idx {
+			k, _ = bo.Y.(*ssa.Const)
+			left = true
+		} else if bo.Y == idx {
+			k, _ = bo.X.(*ssa.Const)
+		}
+		if k == nil {
+			continue
+		}
+		n, isInt := constInt(k)
+		if !isInt {
+			continue
+		}
+		op := bo.Op
+		if !left { // k op idx  ->  idx op' k
+			switch op {
+			case token.LSS:
+				op = token.GTR
+			case token.GTR:
+				op = token.LSS
+			case token.LEQ:
+				op = token.GEQ
+			case token.GEQ:
+				op = token.LEQ
+			}
+		}
+		// ce.holds: (X == Y) for ==/!=, else the operator itself holds (condEdgesOf normalises != to ==)
+		switch {
+		case ce.isEqNeq && n == -1: // idx == -1 : fails edge has idx >= 0
+			nonNeg = append(nonNeg, ce.fails)
+		case op == token.LSS && n == 0, op == token.LEQ && n == -1:
+			nonNeg = append(nonNeg, ce.fails)
+		case op == token.GEQ && n == 0, op == token.GTR && n == -1:
+			nonNeg = append(nonNeg, ce.holds)
+		}
+	}
+	return len(nonNeg) > 0 && !reachable(f, nil, nonNeg)[in.Block()]
+}
+
+// sameSliceValue: the same SSA value, or two loads of the same field of the same struct pointer in a function that
+// never stores to that field and hands the struct to no call in between.
+func sameSliceValue(a, b ssa.Value) bool {
+	if a == b {
+		return true
+	}
+	la, ok1 := a.(*ssa.UnOp)
+	lb, ok2 := b.(*ssa.UnOp)
+	if !ok1 || !ok2 || la.Op != token.MUL || lb.Op != token.MUL {
+		return false
+	}
+	fa, ok1 := la.X.(*ssa.FieldAddr)
+	fb, ok2 := lb.X.(*ssa.FieldAddr)
+	if !ok1 || !ok2 || fa.X != fb.X || fa.Field != fb.Field {
+		return false
+	}
+	f := la.Parent()
+	for _, blk := range f.Blocks {
+		for _, in := range blk.Instrs {
+			if st, ok := in.(*ssa.Store); ok {
+				if fx, ok := st.Addr.(*ssa.FieldAddr); ok && fx.X == fa.X && fx.Field == fa.Field {
+					return false
+				}
+			}
+			if c, ok := in.(ssa.CallInstruction); ok {
+				for _, arg := range c.Common().Args {
+					if arg == fa.X && mayPrecede(la, c) && mayPrecede(c, lb) {
+						return false
+					}
+				}
+			}
+		}
+	}
+	return true
+}
+
+// rangeIndexInBounds: x[i] inside `for i := range y` where y and x are the same slice (the same value, or two loads
+// of one field that nothing in between can have changed): 0 <= i < len(y) on the edge into the loop body.
+func rangeIndexInBounds(in ssa.Instruction, x, idx ssa.Value) bool {
+	add, ok := idx.(*ssa.BinOp)
+	if !ok || add.Op != token.ADD {
+		return false
+	}
+	phi, ok := add.X.(*ssa.Phi)
+	if !ok || phi.Comment != "rangeindex" {
+		return false
+	}
+	if one, isC := add.Y.(*ssa.Const); !isC || one.Value == nil || one.Value.ExactString() != "1" {
+		return false
+	}
+	// the loop test: add < len(y)
+	f := in.Parent()
+	for _, ce := range condEdgesOf(f) {
+		bo := ce.binop
+		if bo == nil || bo.Op != token.LSS || bo.X != ssa.Value(add) {
+			continue
+		}
+		ln, ok := bo.Y.(*ssa.Call)
+		if !ok {
+			continue
+		}
+		if bi, isB := ln.Call.Value.(*ssa.Builtin); !isB || bi.Name() != "len" || len(ln.Call.Args) != 1 {
+			continue
+		}
+		if !sameSliceValue(ln.Call.Args[0], x) {
+			continue
+		}
+		if !reachable(f, nil, []edge{ce.holds})[in.Block()] {
+			return true
+		}
+	}
+	return false
 }
